@@ -35,6 +35,26 @@ def errIs {β : Type} (k : Exc) : Except Exc β → Bool
 @[simp] theorem errIs_ok {β : Type} (k : Exc) (y : β) : errIs k (.ok y : Except Exc β) = true := rfl
 @[simp] theorem errIs_error {β : Type} (k e : Exc) : errIs k (.error e : Except Exc β) = decide (e = k) := rfl
 
+/-- the checked form throws (any kind) -/
+def errB {β : Type} : Except Exc β → Bool
+  | .ok _ => false
+  | .error _ => true
+@[simp] theorem errB_ok {β : Type} (y : β) : errB (.ok y : Except Exc β) = false := rfl
+@[simp] theorem errB_error {β : Type} (e : Exc) : errB (.error e : Except Exc β) = true := rfl
+
+/-- a checked form whose only exception kind is `k0` throws `k` iff `k = k0` and it throws at all -/
+theorem error_iff_of_errIs {β : Type} {k0 : Exc} {e : Except Exc β} (h : errIs k0 e = true) (k : Exc) :
+    e = .error k ↔ (k = k0 ∧ errB e = true) := by
+  cases e with
+  | ok y => simp
+  | error e' =>
+    have : e' = k0 := by simpa using h
+    subst this
+    simp [eq_comm]
+
+theorem bool_iff_of_eq_decide {b : Bool} {p : Prop} [Decidable p] (h : b = decide p) : b = true ↔ p := by
+  rw [h]; exact decide_eq_true_iff
+
 /-- the returned value of a checked form, if any -/
 def okOpt {β : Type} : Except Exc β → Option β
   | .ok y => some y
@@ -89,6 +109,11 @@ theorem ite_and_collapse {β : Type} (p q : Prop) [Decidable p] [Decidable q] (x
 theorem ite_or_collapse {β : Type} (p q : Prop) [Decidable p] [Decidable q] (x y : β) :
     (if p then x else if q then x else y) = if p ∨ q then x else y := by
   by_cases hp : p <;> by_cases hq : q <;> simp [hp, hq]
+
+/-- `(p && q) || g` as it appears after the inner chain has been collapsed -/
+theorem ite_guard_collapse {β : Type} (p q g : Prop) [Decidable p] [Decidable q] [Decidable g] (x y : β) :
+    (if p then (if q ∨ g then x else y) else (if g then x else y)) = if (p ∧ q) ∨ g then x else y := by
+  by_cases hp : p <;> by_cases hq : q <;> by_cases hg : g <;> simp [hp, hq, hg]
 
 theorem ite_ok_err_error_iff {β : Type} (p : Prop) [Decidable p] (v : β) (e k : Exc) :
     ((if p then (.ok v : Except Exc β) else .error e) = .error k) ↔ (¬ p ∧ k = e) := by
